@@ -20,8 +20,11 @@ HasLevels(a) == a \notin {"none", "lz4"}
 \* "magic_prefix": it merely starts with the magic bytes of every format; "repetitive_3m": far beyond the
 \* frame limit before compression, tiny after it (the limit applies to what goes on the wire)
 Payloads == {"empty", "one_byte", "incompressible_4k", "repetitive_64k", "repetitive_512k", "text_8k", "under_limit",
-             "own_frame", "magic_prefix", "repetitive_3m"}
-SmallPayloads == {"empty", "one_byte", "incompressible_4k", "text_8k"}
+             "own_frame", "magic_prefix", "repetitive_3m",
+             \* text whose first or last characters a reader might be tempted to treat as not being text: a byte
+             \* order mark, NUL, white space, line ends, combining marks, noncharacters -- all of them valid UTF-8
+             "text_edge"}
+SmallPayloads == {"empty", "one_byte", "incompressible_4k", "text_8k", "text_edge"}
 Codecs == {"string", "bytes", "bincode"}
 Batching == {0, 3}
 \* what the same compressor / decompressor / codec objects processed before the value under test (a
